@@ -37,7 +37,8 @@ EXPLANATION = 'bounded exhaustive enumeration of registry calls plus explicit-st
 MANIFEST_TEXT = ('Registry of ~60 public functions/methods (text<->number conversion, split/join, interval arithmetic, sequence '
                  'functions, encoding changes, genomic-data methods, table methods) x menus of argument tuples covering the '
                  'special paths (negative, "+", scientific floats, list-valued, genotype columns): arguments byte-identical '
-                 'before/after every call and the second call returns an equal result. Explicit-state search over every subset '
+                 'before/after every call, the second call returns an equal result, an earlier result kept alive is unchanged by later '
+                 'calls, and after explicit assignment into a result the same call on fresh equal arguments still returns the first value. Explicit-state search over every subset '
                  'of accessed fields (<= 8 fields quick / all fields thorough, every access order) of lazily read chunks of 12 '
                  'formats on three root views: raw buffer bytes and written bytes unchanged in every state.')
 MANIFEST_NOTE = 'Trusted: NumPy, the snapshot function in this file. Registry and menus bound the space.'
@@ -293,8 +294,64 @@ def run_registry(res, deadline, only=None, reg=None):
                     res.fail('earlier-result-changed-by-later-call', case, feats, expected=_s(r1), observed=_s(later))
                     res.outcome('ALIASED')
                     continue
+            # explicit assignment into a RESULT is the caller's right (the statement exempts it); it must not change what
+            # the same call on fresh, equal arguments returns afterwards (a result handed out from a cache, a literal
+            # table or a scratch buffer would)
+            if not isinstance(o1, types.GeneratorType) and scribble(o1):
+                try:
+                    r3 = result_value(fn(*b()))
+                    res.transitions += 1
+                except observe.ObserverError:
+                    raise
+                except Exception as e:
+                    res.fail('call-after-editing-an-earlier-result-raises', case, feats, expected=_s(r1), observed=repr(e)[:300], tb=tb_string(e))
+                    continue
+                res.extra['results edited in place before a further call'] += 1
+                if r3 != r1:
+                    res.fail('result-depends-on-edit-of-an-earlier-result', case, feats, expected=_s(r1), observed=_s(r3))
+                    res.outcome('CACHED-RESULT-SHARED')
+                    continue
             res.outcome('pure')
     res.sample({'registry_functions': [n for n, _, _ in registry()][:12]})
+
+
+def scribble(x, depth=0):
+    """Overwrite, in place, every writable numeric buffer reachable from a result -> number of buffers edited."""
+    from bionumpy.encoded_array import EncodedArray, EncodedRaggedArray
+    from bionumpy.bnpdataclass import BNPDataClass
+    from npstructures import RaggedArray
+    if depth > 4:
+        return 0
+    try:
+        if isinstance(x, EncodedRaggedArray):
+            buf = np.asarray(x.ravel().raw())
+        elif isinstance(x, EncodedArray):
+            buf = np.asarray(x.raw())
+        elif isinstance(x, RaggedArray):
+            buf = np.asarray(x.ravel())
+        elif isinstance(x, np.ndarray):
+            buf = x
+        elif isinstance(x, BNPDataClass):
+            if hasattr(x, '_itemgetter'):
+                return 0
+            return sum(scribble(getattr(x, f.name), depth + 1) for f in dataclasses.fields(x))
+        elif isinstance(x, (list, tuple)):
+            return sum(scribble(v, depth + 1) for v in x)
+        elif isinstance(x, dict):
+            return sum(scribble(v, depth + 1) for v in x.values())
+        else:
+            return 0
+    except Exception:
+        return 0
+    if not (isinstance(buf, np.ndarray) and buf.size and buf.flags.writeable and buf.dtype.kind in 'iufb'):
+        return 0
+    if buf.dtype.kind == 'b':
+        buf[...] = ~buf
+    elif buf.dtype.kind == 'f':
+        buf[...] = buf * 2 + 1
+    else:
+        buf[...] = buf + 1
+    return 1
 
 
 def _s(v):
